@@ -51,11 +51,20 @@ def _mk_strs(prefix, shape, among):
 
 
 # ---- one-shot two-collection search through the public functions
-def _body_symdel(rshape, qshape, k, entry, **kw):
+def _perm_index(n):
+    return list(range(n - 1, -1, -1))
+
+
+def _body_symdel(rshape, qshape, k, entry, series=False, **kw):
     def body():
         import pyrepseq
         refs, qs = _mk_strs("r", rshape, None), _mk_strs("q", qshape, None)
-        got = getattr(pyrepseq, entry)(refs, max_edits=k, seqs2=qs, **kw)
+        if series:       # both collections as pandas Series whose own index is a permutation of 0..n-1: positions, never labels, identify a sequence
+            from models import pd_model
+            got = getattr(pyrepseq, entry)(pd_model.Series(list(refs), index=_perm_index(len(refs))), max_edits=k,
+                                           seqs2=pd_model.Series(list(qs), index=_perm_index(len(qs))), **kw)
+        else:
+            got = getattr(pyrepseq, entry)(refs, max_edits=k, seqs2=qs, **kw)
         if not isinstance(got, list):
             return False, "not a list"
         ok = hc.exact_triplets(got, len(qs), len(refs), _dist_fn(qs, refs), k, self_mode=False)
@@ -63,12 +72,17 @@ def _body_symdel(rshape, qshape, k, entry, **kw):
     return body
 
 
-def _replay_symdel(rshape, qshape, k, entry, **kw):
+def _replay_symdel(rshape, qshape, k, entry, series=False, **kw):
     def replay(inputs):
         import pyrepseq
         refs = [inputs[f"r{i}"] for i in range(len(rshape))]
         qs = [inputs[f"q{i}"] for i in range(len(qshape))]
-        got = getattr(pyrepseq, entry)(list(refs), max_edits=k, seqs2=list(qs), **kw)
+        if series:
+            import pandas as pd
+            got = getattr(pyrepseq, entry)(pd.Series(list(refs), index=_perm_index(len(refs)), dtype=object), max_edits=k,
+                                           seqs2=pd.Series(list(qs), index=_perm_index(len(qs)), dtype=object), **kw)
+        else:
+            got = getattr(pyrepseq, entry)(list(refs), max_edits=k, seqs2=list(qs), **kw)
         ok, detail = hc.compare_triplets(got, hc.want_triplets(qs, refs, hc.lev, k, False))
         return ok, f"{entry}({refs!r}, max_edits={k}, seqs2={qs!r}): {detail}"
     return replay
@@ -291,6 +305,10 @@ def conditions(tier):
         out.append(_mk_db("lookupdb", (1,), (1,), (), 1, hc.AMINO, budget=2400))
         out.append(_mk_db("lookupdb", (2,), (1,), (), 1, hc.AMINO, budget=3000))
         out.append(_mk_db("lookupdb", (2,), (2,), (0,), 3, S2, budget=2400))
+    for entry, rs, qs_, k in [("symdel", (1, 1), (1, 1), 1), ("nearest_neighbor", (2, 1), (1, 2), 1), ("symdel", (1, 1), (1, 1, 1), 1)]:
+        out.append(Condition(f"C03/{entry}/series-with-permuted-index/ref={','.join(map(str, rs))}/qry={','.join(map(str, qs_))}/k={k}",
+                             _body_symdel(rs, qs_, k, entry, series=True), _replay_symdel(rs, qs_, k, entry, series=True), budget=300, models=("rf", "np", "pd"),
+                             bounds=f"{entry}(refs {rs}, seqs2 {qs_}, max_edits={k}) with both collections given as pandas Series indexed n-1..0"))
     for rs, qs_, k in [((1,), (1,), 1), ((2, 1), (1, 2), 1)]:                   # progress=True only wraps the query loop in a progress bar
         out.append(Condition(f"C03/symdel/progress/ref={','.join(map(str, rs))}/qry={','.join(map(str, qs_))}/k={k}", _body_symdel(rs, qs_, k, "symdel", progress=True),
                              _replay_symdel(rs, qs_, k, "symdel", progress=True), budget=300, models=("rf", "misc"),
